@@ -17,6 +17,7 @@ COMMON_TRUSTED = [
     "kani stub: zeroize::optimization_barrier -> no-op (its body is an empty inline-asm barrier)",
     "kani stub: tinyvec <[T;N] as Array>::default -> [T::default(); N] (same value, avoids closure machinery)",
     "safe Rust frame conditions (#![forbid(unsafe_code)] re-checked textually on every run)",
+    "Kani harnesses run with CBMC pointer-validity checks off (--no-memory-safety-checks): memory safety is taken from the Rust type system; unsafe code inside core/alloc/zeroize/subtle is not re-verified. Rust-level panics (bounds, overflow, unwrap, capacity) remain checked.",
 ]
 
 
@@ -38,6 +39,26 @@ def match_known(pid, engine, unit, failed_desc, known):
 def main(a):
     pid = a.property
     tier = a.tier
+    if getattr(a, "replay", None):
+        # replay: show the stored violation and re-run exactly the failed obligation on /repo's current tree
+        try:
+            with open(a.replay) as f:
+                rp = json.load(f)
+        except Exception as e:
+            print("cannot read replay file %s: %s" % (a.replay, e))
+            return EXIT_UNDECIDED
+        print("REPLAY property=%s failed_obligation=%s engine=%s" % (rp.get("property"), rp.get("failed_obligation"), rp.get("engine")))
+        for fc in rp.get("failed_checks", [])[:10]:
+            print("  failed: %s" % fc)
+        cex = rp.get("counterexample") or {}
+        if cex.get("inputs"):
+            print("  inputs (kani concrete playback, in draw order):")
+            for i in cex["inputs"][:40]:
+                print("    %s = %s" % (i.get("value"), i.get("bytes")))
+        print("  native replay: %s %s" % (cex.get("native_replay"), cex.get("native_panic", "")))
+        a.only = rp.get("failed_obligation")
+        tier = rp.get("tier", tier)
+        a.replay = None
     timer = Timer()
     meta_all = load_props_meta()
     if pid not in meta_all:
